@@ -41,14 +41,26 @@ def _fold(folder, rd, tt_lang, divs):
 
 
 def run(ctx, report):
-    folder = ctx.memo("folder", lambda: Folder(ctx.index))
     rd = ctx.index.get_function(PATH, "DFXPReader.read")
     report.covered(rd)
-    default = folder.value("pycaption.base", "DEFAULT_LANGUAGE_CODE")
-    if not isinstance(default, str):
-        raise AnalysisError("DEFAULT_LANGUAGE_CODE does not fold to a string")
     label_bad, fallback_bad, order_bad = [], [], []
     n = 0
+    # two worlds: no configuration (documented default), and every environment variable set to 'qaa'
+    worlds = [(ctx.memo("folder", lambda: Folder(ctx.index)), None),
+              (ctx.memo("folder-configured", lambda: Folder(ctx.index, environ="qaa")), "qaa")]
+    for folder, configured in worlds:
+        default = folder.value("pycaption.base", "DEFAULT_LANGUAGE_CODE")
+        if not isinstance(default, str):
+            raise AnalysisError("DEFAULT_LANGUAGE_CODE does not fold to a string")
+        if configured is not None and default != configured:
+            fallback_bad.append({"configured_default_language": configured, "DEFAULT_LANGUAGE_CODE": default,
+                                 "why": "the default language does not follow the configuration"})
+            continue
+        n = _world(folder, rd, default, configured, label_bad, fallback_bad, order_bad, n)
+    _report(report, rd, n, label_bad, order_bad, fallback_bad)
+
+
+def _world(folder, rd, default, configured, label_bad, fallback_bad, order_bad, n):
     for tt_lang in (None, "de"):
         for k in (1, 2, 3):
             for divs in itertools.product(("en-US", "fr", None), repeat=k):
@@ -63,7 +75,8 @@ def run(ctx, report):
                 want = {}
                 for i, l in enumerate(eff):
                     want[l] = i           # a repeated language keeps its first position, the later div's list
-                case = {"tt_lang": tt_lang, "div_langs": list(divs), "read_as": got}
+                case = {"tt_lang": tt_lang, "div_langs": list(divs), "read_as": got,
+                        **({"configured_default_language": configured} if configured else {})}
                 if not isinstance(got, list):
                     label_bad.append(case)
                     continue
@@ -75,6 +88,11 @@ def run(ctx, report):
                     label_bad.append(case)
                 elif [k_ for k_, _ in got] != list(want):
                     order_bad.append(case)
+    return n
+
+
+def _report(report, rd, n, label_bad, order_bad, fallback_bad):
+    default = None
     report.count("dfxp_stub_documents", n)
     report.check(not label_bad, "R-LABEL", rd, "each div's captions are stored under that div's own language",
                  {"documents": n, "mismatches": label_bad[:2]}, "2")
@@ -82,4 +100,5 @@ def run(ctx, report):
                  {"documents": n, "mismatches": order_bad[:2]}, "2")
     report.check(not fallback_bad, "R-FALLBACK", rd,
                  "a div without xml:lang takes the document language, then the configured default",
-                 {"documents": n, "configured_default": default, "mismatches": fallback_bad[:2]}, "3")
+                 {"documents": n, "worlds": ["no configuration", "every environment variable = 'qaa'"],
+                  "mismatches": fallback_bad[:2]}, "3")
